@@ -30,7 +30,7 @@ Accepted == \A i \in 1..Len(Traces) : PrintT(<<"RESULT", i, TLCGet(i) - 1, Len(T
 """
 
 
-def validate(module_file, constants_cfg, traces, ctx, name, timeout=900, dfs=False, extra_cfg=""):
+def validate(module_file, constants_cfg, traces, ctx, name, timeout=300, dfs=False, extra_cfg=""):
     """Return a list of (matched_events, total_events) per trace."""
     if not traces:
         return []
@@ -68,7 +68,7 @@ def corrupt(traces, mutator_ops):
     return None, None
 
 
-def check_traces(module_file, constants_cfg, traces, ctx, name, mutator_ops, sig_fn=None, dfs=False, timeout=900,
+def check_traces(module_file, constants_cfg, traces, ctx, name, mutator_ops, sig_fn=None, dfs=False, timeout=300,
                  extra_cfg=""):
     """Validate recorded traces; report rejections as violations; run the corruption self-test."""
     verdicts = validate(module_file, constants_cfg, traces, ctx, name, timeout=timeout, dfs=dfs, extra_cfg=extra_cfg)
